@@ -291,12 +291,18 @@ def alignment_induction(prog: Program, chk: Check):
             return Obj(fcls, "Field", **d)
         raise AnalysisError(f"C11-N vocabulary exceeded: construction of {ci.name}")
 
-    for auto_pad in (True, False):
-        for seq in seqs:
+    mcls = pm.classes.get("MDF")
+    # message definitions are laid out by the same routine and can themselves be field types: the single-field family is
+    # repeated with a message definition as the container (its recorded alignment must be the strictest member's too)
+    runs = [(ap, sq, scls, "SDF") for ap in (True, False) for sq in seqs]
+    if mcls is not None:
+        runs += [(True, sq, mcls, "MDF") for sq in seqs if len(sq) == 1]
+    for auto_pad, seq, ccls, cname in runs:
+        if True:
             nrun += 1
             user = [mkfield(i, k) for i, k in enumerate(seq)]
             spec = [(k[1], k[2] * (k[3] or 1)) for k in seq]
-            s_obj = Obj(scls, "SDF", name="X", fields=list(user), alignment=8)
+            s_obj = Obj(ccls, cname, name="X", fields=list(user), alignment=8)
             parser = Obj(prog.cls(PAR, "Parser"), "Parser", auto_pad=auto_pad)
 
             def ctype_size(selfobj, args, kwargs):
@@ -305,7 +311,7 @@ def alignment_induction(prog: Program, chk: Check):
                         f.get("type_obj").get("size") * (f.get("length") or 1)) for f in fl]
                 return natural(lay)[1]
 
-            it = Interp(prog, {"warning": lambda s_, a_, k_: None, "get_ctype_size": ctype_size}, {"supported_types": nat_objs, "Field": ("class", fcls), "NativeType": ("class", ncls)}, construct=construct)
+            it = Interp(prog, {"warning": lambda s_, a_, k_: None, "get_ctype_size": ctype_size}, {"supported_types": nat_objs, "Field": ("class", fcls), "NativeType": ("class", ncls), "SDF": ("class", scls), **({"MDF": ("class", mcls)} if mcls is not None else {})}, construct=construct)
             raised = None
             try:
                 it.call_method(ca, parser, [s_obj])
@@ -314,7 +320,7 @@ def alignment_induction(prog: Program, chk: Check):
             steps += it.steps
             offs, nsize, mx = natural(spec)
             needs_pad = offs != [sum(x[1] for x in spec[:i]) for i in range(len(spec))] or nsize != sum(x[1] for x in spec)
-            label = "auto_pad" if auto_pad else "no_auto_pad"
+            label = ("auto_pad" if auto_pad else "no_auto_pad") + ("" if cname == "SDF" else ":message-definition")
             why = None
             fl = s_obj.get("fields")
             if auto_pad:
